@@ -15,16 +15,16 @@ from . import c08
 ID = "C17"
 RULE = (
     "manifests grown batch by batch (1..B batches, each of size 0..S, empty batches included) x card bound = total + "
-    "{0,1,2} x number of CVRs in {0,total} (and manifests whose DataFrame index is reversed or shifted), through each vendor's own prep_manifest; then every single valid sample "
+    "{0,1,2} x number of CVRs in {0,total} (and manifests whose DataFrame index is reversed or shifted, and raw DataFrame objects that were already prepared once for another bound), through each vendor's own prep_manifest; then every single valid sample "
     "number (whole range, hence injectivity), every ordered pair and (thorough, small manifests) every ordered triple "
     "through sample_from_manifest: number -> (batch row, position) must be the reference bijection (1-based Dominion, "
     "0-based Hart) with the position inside the batch's size, selection_order = position in the sample, phantom manual "
-    "record iff the card is in the appended phantom batch; refusals for bound < total and CVRs > total; "
+    "record iff the card is in the appended phantom batch; refusals for bound < total and CVRs > total; every single number again on a manifest derived from the prepared one (real batches in reverse order, counts re-accumulated); "
     "sample_from_cvrs on vendor-format lists with phantoms for every ordered sample of <= 3; manifests with counts in the hundreds of thousands (refusal exact to one card, lookups at every batch boundary) and one sample of 300/2500 draws.  Non-trivial = manifest with "
     "an empty batch or a phantom batch; distinct = distinct (vendor, manifest, bound)"
 )
 ASSUMPTIONS = ["(tabulator, batch) pairs are unique in a manifest", "sample numbers are valid (inside the range the prepared manifest accounts for)"]
-REQUIRE_VAC = ["manifests_with_empty_batch", "manifests_with_phantom_batch", "phantom_cards_looked_up", "refusals_checked", "pairs_looked_up"]
+REQUIRE_VAC = ["manifests_with_empty_batch", "manifests_with_phantom_batch", "phantom_cards_looked_up", "refusals_checked", "pairs_looked_up", "lookups_on_derived_manifest", "raw_manifest_object_prepared_twice"]
 PLAN = {"quick": (3, 3), "thorough": (4, 4)}
 
 
@@ -52,10 +52,12 @@ def _make_manifest(vendor, sizes):
                          "Batch Name": [f"b{i}" for i in range(len(sizes))], "Number of Ballots": list(sizes)})
 
 
-def ref_cards(vendor, sizes, extra):
-    """card number -> (row, tab, batch, position, is_phantom) for every card the prepared manifest accounts for"""
+def ref_cards(vendor, sizes, extra, row_order=None):
+    """card number -> (row, tab, batch, position, is_phantom) for every card the prepared manifest accounts for
+    (row_order: the real batches appear in this order)"""
     rows = []
-    for i, sz in enumerate(sizes):
+    for i in (row_order if row_order is not None else range(len(sizes))):
+        sz = sizes[i]
         tab, batch = (str(10 + i), str(i + 1)) if vendor == "dominion" else (f"t{i}", f"b{i}")
         rows.append((tab, batch, sz, False))
     if extra:
@@ -69,22 +71,24 @@ def ref_cards(vendor, sizes, extra):
     return out
 
 
-def prep(vendor, sizes, bound, n_cvrs, index_kind="range"):
+def prep(vendor, sizes, bound, n_cvrs, index_kind="range", used_before=False):
     m = make_manifest(vendor, sizes, index_kind)
     with warnings.catch_warnings():
         warnings.simplefilter("ignore")
+        if used_before:  # the same raw DataFrame object was prepared before, for a larger bound
+            (Dominion if vendor == "dominion" else Hart).prep_manifest(m, bound + 2, 0)
         if vendor == "dominion":
             return Dominion.prep_manifest(m, bound, n_cvrs)
         return Hart.prep_manifest(m, bound, n_cvrs)
 
 
-def judge_prep(vendor, sizes, extra, index_kind="range"):
+def judge_prep(vendor, sizes, extra, index_kind="range", used_before=False):
     total = sum(sizes)
     out = []
     res = None
     for n_cvrs in sorted({0, total}):
         try:
-            man, mc, ph = prep(vendor, sizes, total + extra, n_cvrs, index_kind)
+            man, mc, ph = prep(vendor, sizes, total + extra, n_cvrs, index_kind, used_before)
         except Exception as e:  # noqa
             return [(f"C17|{vendor}|prep_manifest|exception|{type(e).__name__}", f"prep_manifest raised {type(e).__name__}: {str(e)[:80]} (sizes {list(sizes)}, bound {total + extra}, cvrs {n_cvrs})")], None
         if int(mc) != total or int(ph) != extra:
@@ -113,8 +117,20 @@ def judge_prep(vendor, sizes, extra, index_kind="range"):
     return out, res
 
 
-def judge_lookup(vendor, sizes, extra, man, sample):
+def derive(vendor, man, n_real):
+    """a manifest derived from a prepared one: the real batches in reverse order (phantom batch last), counts re-accumulated"""
+    order = list(range(n_real - 1, -1, -1)) + list(range(n_real, len(man)))
+    m2 = man.iloc[order].reset_index(drop=True)
+    col = "Total Ballots" if vendor == "dominion" else "Number of Ballots"
+    m2["cum_cards"] = m2[col].astype(int).cumsum()
+    return m2, order[:n_real]
+
+
+def judge_lookup(vendor, sizes, extra, man, sample, derived=False):
     ref = ref_cards(vendor, sizes, extra)
+    if derived:
+        man, row_order = derive(vendor, man, len(sizes))
+        ref = ref_cards(vendor, sizes, extra, row_order)
     try:
         with warnings.catch_warnings():
             warnings.simplefilter("ignore")
@@ -246,10 +262,13 @@ def run_shard(sh, rec):
                             rec.violate(key.replace("C08|", "C17|"), what, {"kind": "cvrs", "vendor": vendor, "layout": list(layout), "sample": list(sample)})
         return
     _, vendor, sizes, tier = sh
-    for extra, index_kind in ((0, "range"), (1, "range"), (2, "range"), (0, "reversed"), (0, "shifted"), (1, "reversed")):
+    for extra, index_kind in ((0, "range"), (1, "range"), (2, "range"), (0, "reversed"), (0, "shifted"), (1, "reversed"), (0, "used"), (2, "used")):
         rec.state()
-        v, man = judge_prep(vendor, sizes, extra, index_kind)
-        if index_kind != "range":
+        used = index_kind == "used"
+        v, man = judge_prep(vendor, sizes, extra, "range" if used else index_kind, used)
+        if used:
+            rec.vac("raw_manifest_object_prepared_twice")
+        elif index_kind != "range":
             rec.vac("manifests_with_foreign_index")
         rec.trans()
         rec.evals(4)
@@ -286,6 +305,16 @@ def run_shard(sh, rec):
             rec.observe((vendor, sizes, extra, sample, [k for k, _ in lv]))
             for key, what in lv:
                 rec.violate(key, what, {"kind": "lookup", "vendor": vendor, "sizes": list(sizes), "extra": extra, "sample": list(sample), "index_kind": index_kind})
+        if index_kind == "range" and len(sizes) >= 2:  # non-initial state: the same lookups on a manifest derived from the prepared one
+            for s_ in nums:
+                lv = judge_lookup(vendor, sizes, extra, man, (s_,), derived=True)
+                rec.trans()
+                rec.evals()
+                rec.vac("lookups_on_derived_manifest")
+                rec.observe((vendor, sizes, extra, "derived", s_, [k for k, _ in lv]))
+                for key, what in lv:
+                    rec.violate(key + "|derived-manifest", what + " [manifest = the prepared one with its real batches in reverse order]",
+                                {"kind": "lookup", "vendor": vendor, "sizes": list(sizes), "extra": extra, "sample": [s_], "index_kind": index_kind, "derived": True})
         if rec.want_sample((vendor, sizes, extra)):
             rec.sample({"vendor": vendor, "batch_sizes": list(sizes), "phantom_batch": extra, "numbers -> (row,tab,batch,position,phantom)": {str(k): list(v) for k, v in ref.items()}})
 
@@ -310,7 +339,9 @@ def run_case(case):
     if case["kind"] == "cvrs":
         return [(k.replace("C08|", "C17|"), w) for k, w in c08.judge_vendor(case["vendor"], tuple(case["layout"]), case["sample"])]
     sizes = tuple(case["sizes"])
-    v, man = judge_prep(case["vendor"], sizes, case["extra"], case.get("index_kind", "range"))
+    ik = case.get("index_kind", "range")
+    v, man = judge_prep(case["vendor"], sizes, case["extra"], "range" if ik == "used" else ik, ik == "used")
     if case["kind"] == "prep" or man is None:
         return v
-    return judge_lookup(case["vendor"], sizes, case["extra"], man, tuple(case["sample"]))
+    lv = judge_lookup(case["vendor"], sizes, case["extra"], man, tuple(case["sample"]), bool(case.get("derived")))
+    return [(k + "|derived-manifest", w) for k, w in lv] if case.get("derived") else lv
